@@ -66,6 +66,14 @@ expect("removed_file", "diff --git a/dead.txt b/dead.txt\ndeleted file mode 1006
 expect("added_file", "diff --git a/born.txt b/born.txt\nnew file mode 100644\nindex 0000000..1111111\n--- /dev/null\n+++ b/born.txt\n@@ -0,0 +1,2 @@\n+x\n+y\n", ["ADD born.txt"], ["born.txt:1"])
 expect("two_modified", "diff --git a/a.rs b/a.rs\nindex 1111111..2222222 100644\n--- a/a.rs\n+++ b/a.rs\n" + HUNK + "diff --git a/b.rs b/b.rs\nindex 1111111..2222222 100644\n--- a/b.rs\n+++ b/b.rs\n@@ -7 +9 @@\n-p\n+q\n",
        ["MOD a.rs", "MOD b.rs"], ["a.rs:50", "b.rs:9"])
+# a renamed AND modified binary file: one header
+expect("renamed_binary", "diff --git a/img/old.png b/img/new.png\nsimilarity index 90%\nrename from img/old.png\nrename to img/new.png\nindex 1111111..2222222 100644\nBinary files a/img/old.png and b/img/new.png differ\n",
+       ["REN img/old.png => img/new.png"], [])
+# two commits; the first ends with an empty added file whose header is written lazily
+two = ("commit 1111111111111111111111111111111111111111\nAuthor: A <a@b>\nDate:   Mon Jan 1 00:00:00 2024 +0000\n\n    first\n\ndiff --git a/empty.txt b/empty.txt\nnew file mode 100644\nindex 0000000..e69de29\n"
+       "commit 2222222222222222222222222222222222222222\nAuthor: A <a@b>\nDate:   Mon Jan 2 00:00:00 2024 +0000\n\n    second\n\ndiff --git a/src/f.rs b/src/f.rs\nindex 1111111..2222222 100644\n--- a/src/f.rs\n+++ b/src/f.rs\n" + HUNK)
+expect("lazy_header_before_next_commit", two, ["ADD empty.txt", "MOD src/f.rs"], ["src/f.rs:50"])
+
 # a section with a two-path diff line and only a Binary line, after another section
 bn = "diff --git a/README.md b/README.md\nindex 1111111..2222222 100644\n--- a/README.md\n+++ b/README.md\n" + HUNK + "diff --git a/img/one.png b/img/two.png\nindex 3333333..4444444 100644\nBinary files a/img/one.png and b/img/two.png differ\n"
 rc, lines = render(bn)
